@@ -382,6 +382,8 @@ static int v_read(const struct cat_variable *var)
 
 static struct cat_io_interface io_if = { io_write, io_read };
 static struct cat_mutex_interface mtx_if = { mtx_lock, mtx_unlock };
+/* `mutex 2`: the interface is handed to cat_init before its functions are known and completed right after (the library keeps the pointer) */
+static struct cat_mutex_interface mtx_late;
 
 /* ---------- scenario life cycle ---------- */
 
@@ -468,7 +470,12 @@ static void do_init(void)
         desc.unsolicited_buf = ubuf;
         desc.unsolicited_buf_size = (uns_size >= 0) ? (size_t)uns_size : 0;
         memset(&obj, 0xCC, sizeof(obj));
-        cat_init(&obj, &desc, &io_if, use_mutex ? &mtx_if : NULL);
+        if (use_mutex == 2) {
+                memset(&mtx_late, 0, sizeof(mtx_late));
+                cat_init(&obj, &desc, &io_if, &mtx_late);
+                mtx_late = mtx_if;
+        } else
+                cat_init(&obj, &desc, &io_if, use_mutex ? &mtx_if : NULL);
         inited = 1;
 }
 
